@@ -337,3 +337,32 @@ def norm_cmp(term):
             new = term[1][:-2] + ("ge" if name == "le" else "gt")
             return ("call", new, (term[2][1], term[2][0])) + tuple(term[3:])
     return term
+
+
+def loop_body_always_calls(body, pred, max_paths=20000):
+    """For a `for x in ITER { .. }` loop (Iterator::next tested for Some): on every path from the Some edge of a `next`
+    test back to the next `next` call or to a normal exit, a call satisfying `pred` occurs. Returns (n_iterations_seen,
+    problems)."""
+    problems = set()
+    n = 0
+    for p in PathEval(body, max_visits=2, max_paths=max_paths).run():
+        if p.end not in ("return", "loop"):
+            continue
+        # positions of `next` calls in the path's call list
+        idx = [i for i, c in enumerate(p.calls) if c[1].get("method") == "next" and (c[1].get("trait") or "").endswith("Iterator")]
+        for k, i in enumerate(idx):
+            call_term = p.calls[i][3]
+            tests = [c for c in p.conds if c[0][0] == "discr" and c[0][1] == call_term]
+            if not tests or tests[0][1] != 1:
+                continue            # None edge (loop exit) or undecided
+            seg_end = idx[k + 1] if k + 1 < len(idx) else len(p.calls)
+            seg = p.calls[i + 1:seg_end]
+            n += 1
+            if not any(pred(c) for c in seg):
+                if k + 1 < len(idx) or p.end == "loop":
+                    problems.add("an iteration ends without the expected call")
+                elif p.end == "return":
+                    # left the loop early from inside the body (e.g. `?`): acceptable only if it is an error exit
+                    if not (p.ret and p.ret[0] in ("call", "agg") and ("Err" in show(p.ret) or "from_residual" in show(p.ret))):
+                        problems.add("an iteration leaves the function without the expected call")
+    return n, sorted(problems)
